@@ -623,7 +623,13 @@ func (r *Ring) Exec(t []string) string {
 		r.New(u(1))
 		return "ok"
 	case "create":
-		return withTimeout(opTimeout, func() string { return ErrName(r.Node(u(1)).Create()) })
+		return withTimeout(opTimeout, func() string {
+			res := ErrName(r.Node(u(1)).Create())
+			// let the freshly started tasks take their first turn now (the predecessor check runs once at start,
+			// while pred == self: a no-op); left in the run queue it could run after later operations instead
+			time.Sleep(2 * time.Millisecond)
+			return res
+		})
 	case "join":
 		return withTimeout(opTimeout, func() string {
 			res := ErrName(r.Node(u(1)).Join(r.Wrap(u(2))))
